@@ -893,6 +893,8 @@ class Interp(object):
             return v.func
         if isinstance(v, PropertyVal):
             return self.call(v.func, [obj], {})
+        if getattr(v, 'binds_as_method', False):
+            return BoundMethod(obj, v)
         return v
 
     def hasattr(self, obj, name):
